@@ -391,3 +391,43 @@ func judgeFindLast(i int, desc bool, out string) {
 			showIndex(), getCached(), dirName(desc), out, exp))
 	}
 }
+
+// judgeNLookup: EditPost / CrossPost find an article by name iff the linear scan of the file does - also when
+// this is the first access to the board after a restart (cold cached total).
+func judgeNLookup(i int, how string, name []byte, cold bool, out string) {
+	if out == "PANIC" || out == "TIMEOUT" {
+		if out == "TIMEOUT" {
+			timeouts++
+		}
+		run.Fail(i, "crash:nlookup", how+" "+out+": "+hx.LastPanic)
+		return
+	}
+	es := curEnts()
+	if !synced || !wellFormed(es) {
+		return
+	}
+	if len(es) > 0 {
+		last := es[len(es)-1]
+		if !last.valid && string(cstr(cur[len(cur)-1])) != ".d" {
+			return // SetBTotal refuses an unparsable last name on the re-count (modelled, not judged)
+		}
+	}
+	q := parseEnt(name)
+	present := false
+	if q.valid {
+		for _, e := range es {
+			if e.valid && e.t == q.t && e.key == q.key {
+				present = true
+			}
+		}
+	}
+	found := out == "found"
+	if found != present {
+		key := "lookup:byname-" + how
+		if cold {
+			key = "lookup:cold-first-access-" + how
+		}
+		run.Fail(i, key, fmt.Sprintf("index %s (cached total before: cold=%v): %s looks %q up by name: %s, linear scan of the file: present=%v",
+			showIndex(), cold, how, string(cstr(name)), out, present))
+	}
+}
